@@ -12,4 +12,6 @@ CHECKS = {
             "deadline_s": {"quick": 300, "thorough": 3000}},
     "C13": {"pkg": "c13", "deps": ["kit"], "level": "exploration",
             "deadline_s": {"quick": 300, "thorough": 3000}},
+    "C18": {"pkg": "c18", "deps": ["kit"], "level": "exploration",
+            "deadline_s": {"quick": 300, "thorough": 3000}},
 }
